@@ -33,6 +33,25 @@ ASSUMPTIONS = [
 ]
 
 ENTRIES = ["sign", "sign_digest", "sign_deterministic", "sign_digest_deterministic", "sign_number"]
+PAYLOAD_TYPES = ["bytes", "bytearray", "memoryview", "memoryview-writable", "array-B", "array-H", "view-cast-I"]
+
+
+def as_type(data, kind):
+    """the same octets handed over as another documented bytes-like object"""
+    import array
+    if kind == "bytearray":
+        return bytearray(data)
+    if kind == "memoryview":
+        return memoryview(data)
+    if kind == "memoryview-writable":
+        return memoryview(bytearray(data))
+    if kind == "array-B":
+        return array.array("B", data)
+    if kind == "array-H" and len(data) % 2 == 0 and data:
+        return array.array("H", data)
+    if kind == "view-cast-I" and len(data) % 4 == 0 and data:
+        return memoryview(bytearray(data)).cast("I")
+    return data
 
 
 def check_case(ctx, case, enum=False, cache=None):
@@ -77,25 +96,28 @@ def check_case(ctx, case, enum=False, cache=None):
     elif nonce[0] == "entropy":
         kw["entropy"] = Stream(bytes.fromhex(nonce[1]), bytes.fromhex(nonce[2]))
     digest = None
+    raw_payload = payload
+    ptype = case.get("ptype", "bytes")
     try:
         if entry == "sign":
             digest = hf(payload).digest()
             use_default = case.get("default_hash", False)
-            sig = sk.sign(payload, hashfunc=None if use_default else hf, sigencode=enc, **kw)
+            sig = sk.sign(as_type(payload, ptype), hashfunc=None if use_default else hf, sigencode=enc, **kw)
             ok = vk.verify(sig, payload, hashfunc=None if use_default else hf, sigdecode=dec)
         elif entry == "sign_digest":
             digest = payload
-            sig = sk.sign_digest(digest, sigencode=enc, allow_truncate=at, **kw)
-            ok = vk.verify_digest(sig, digest, sigdecode=dec, allow_truncate=at)
+            sig = sk.sign_digest(as_type(digest, ptype), sigencode=enc, allow_truncate=at, **kw)
+            ok = vk.verify_digest(sig, as_type(digest, case.get("vtype", "bytes")), sigdecode=dec, allow_truncate=at)
         elif entry == "sign_deterministic":
             digest = hf(payload).digest()
             extra = bytes.fromhex(nonce[1]) if nonce[0] == "rfc" else b""
-            sig = sk.sign_deterministic(payload, hashfunc=hf, sigencode=enc, extra_entropy=extra)
-            ok = vk.verify(sig, payload, hashfunc=hf, sigdecode=dec)
+            sig = sk.sign_deterministic(as_type(payload, ptype), hashfunc=hf, sigencode=enc,
+                                        extra_entropy=as_type(extra, case.get("vtype", "bytes")))
+            ok = vk.verify(sig, as_type(payload, case.get("vtype", "bytes")), hashfunc=hf, sigdecode=dec)
         elif entry == "sign_digest_deterministic":
             digest = payload
             extra = bytes.fromhex(nonce[1]) if nonce[0] == "rfc" else b""
-            sig = sk.sign_digest_deterministic(digest, hashfunc=hf, sigencode=enc, extra_entropy=extra,
+            sig = sk.sign_digest_deterministic(as_type(digest, ptype), hashfunc=hf, sigencode=enc, extra_entropy=extra,
                                                allow_truncate=at)
             ok = vk.verify_digest(sig, digest, sigdecode=dec, allow_truncate=at)
         elif entry == "sign_number":
@@ -152,6 +174,8 @@ def check_case(ctx, case, enum=False, cache=None):
         cls.append(nonce[0])
     if case.get("precompute"):
         cls.append("precomputed-vk")
+    if ptype != "bytes" or case.get("vtype", "bytes") != "bytes":
+        cls.append("non-bytes-payload")
     if case.get("boundary"):
         cls.append("boundary")
     if "canonize" in encname:
@@ -190,7 +214,8 @@ def toy_sweep(ctx, cname, digests, encs):
 
 
 def st_case(names, toy):
-    def mk(cname, di, ki, u1, u2, hname, encname, entry, payload, nk, extra, prefix, seed, at, vr, sr, flag, dh, pre=None):
+    def mk(cname, di, ki, u1, u2, hname, encname, entry, payload, nk, extra, prefix, seed, at, vr, sr, flag, dh, pre=None,
+           ptype="bytes", vtype="bytes"):
         dm = gen.dom(cname)
         n = dm.n
         bs = gen.boundary_scalars(n)
@@ -214,7 +239,7 @@ def st_case(names, toy):
                 "nonce": nonce, "at": at, "vk_route": vroutes[vr % len(vroutes)] if vr >= 0 else "none",
                 "sk_route": sroutes[sr % len(sroutes)] if sr >= 0 else "none",
                 "vk_from_reloaded_sk": flag, "default_hash": dh, "boundary": di >= 0 or (nk == 0 and ki >= 0),
-                "precompute": pre}
+                "precompute": pre, "ptype": ptype, "vtype": vtype}
 
     payloads = st.one_of(st.binary(max_size=70), st.binary(min_size=100, max_size=200),
                          st.sampled_from([b"", b"\x00", b"\xff" * 66, bytes(66), b"\x80" + bytes(31)]))
@@ -225,7 +250,8 @@ def st_case(names, toy):
         st.one_of(st.just(b""), st.binary(min_size=1, max_size=30)),
         st.one_of(st.binary(max_size=3), st.sampled_from([b"\xff" * 70, bytes(70)])), st.integers(0, 2 ** 64 - 1),
         st.booleans(), st.integers(-12, 12), st.integers(-8, 8), st.booleans(), st.booleans(),
-        st.sampled_from([None, None, None, "lazy", "eager"]))
+        st.sampled_from([None, None, None, "lazy", "eager"]),
+        st.sampled_from(["bytes", "bytes"] + PAYLOAD_TYPES), st.sampled_from(["bytes", "bytes", "bytearray", "memoryview", "array-B"]))
 
 
 def sweep_cases(names, full):
@@ -269,7 +295,7 @@ def units(tier, seed):
         out.append(("toy", {"curve": "t127", "digests": [x.hex() for x in one[::64]], "encs": encs}))
     for i in range(8):
         out.append(("hyp-named", {"names": names[i::8], "examples": 150 if q else 2500}))
-    toys = list(gen.TOY_PRIME)
+    toys = list(gen.TOY_PRIME) + ["t13-legacy", "t23a-legacy", "t251a-legacy", "t17x-legacy"]
     for i in range(4):
         out.append(("hyp-toy", {"names": toys[i::4], "examples": 2500 if q else 30000}))
     return out
